@@ -181,7 +181,7 @@ static std::string gen_tunnel(uint64_t seed, uint64_t idx, bool thorough) {
         int k = r.chance(0.25) ? 2 : 1;
         for (int i = 0; i < k; i++) {
             size_t fi = long_run ? (size_t)r.range(4200, nframes - 1) : (size_t)r.below(frame_t.size());
-            o.line(strf("restart t=%llu", (unsigned long long)(frame_t[std::min(fi, frame_t.size() - 1)] + r.range(0, scale))));
+            o.line(strf("restart t=%llu who=%s", (unsigned long long)(frame_t[std::min(fi, frame_t.size() - 1)] + r.range(0, scale)), (i == 0 ? r.chance(0.7) : false) ? "talker" : "listener"));
         }
     }
     if (faults) {
